@@ -361,3 +361,18 @@ package queue
 //@   ensures[cursor_above_every_message] err == nil ==> qInvAll(q)
 //@ end
 
+//@ # ---- opening a queue (C05): the data page factory is created with the page size the allocator assumes (at least 128 MiB:
+//@ # alloc rolls over at that constant, a smaller mapping would silently truncate the message that straddles its end).
+//@ # Thin contract: only this clause is claimed for NewQueue (its other obligations need the disk hypotheses of the reopen
+//@ # path, which are preconditions of initSequence / initDataPageIndex and are not established here) ------------------
+//@ extern func sync.NewCond
+//@   modifies nothing
+//@   fresh
+//@ end
+//@ func NewQueue
+//@   prop C05
+//@   unshared
+//@   focus data_pages_are_as_large_as_the_allocator_assumes
+//@   modifies *
+//@   ensures[data_pages_are_as_large_as_the_allocator_assumes] result1 == nil ==> (result0 != nil && typeis(result0, "*queue") && page.fpsize(cast(result0, "*queue").dataPageFct) >= 134217728)
+//@ end
